@@ -8,3 +8,84 @@ def history(case, d):
 
 def rhistory(case, d):
     return impl_rag.run_history(case, d, want_regen=False)
+
+
+def open_scenarios(case, d):
+    """read-only mode while the array is open, nested requests, copies: oracle only"""
+    import os
+    import numpy as np
+    import darr
+    from implutil import snapshot
+    kind = case['kind']
+    path = os.path.join(d, 'x.darr')
+    shape = tuple(case.get('shape', (5,)))
+    out = dict(attempts=[])
+    stack = []
+
+    def attempts(obj, target, isragged=False):
+        muts = [('setitem', lambda: obj.__setitem__(slice(None), 1)), ('append', lambda: obj.append(np.zeros((1,) + tuple(obj.shape[1:])))),
+                ('iterappend', lambda: obj.iterappend([np.zeros((1,) + tuple(obj.shape[1:]))])),
+                ('truncate', lambda: darr.truncate_array(obj, 1)), ('meta', lambda: obj.metadata.update({'z': 1})),
+                ('delete', lambda: darr.delete_array(obj))] if not isragged else \
+               [('append', lambda: obj.append(np.zeros((1,) + tuple(obj.atom)))),
+                ('iterappend', lambda: obj.iterappend([np.zeros((1,) + tuple(obj.atom))])),
+                ('iterappend-empty', lambda: obj.iterappend([])),
+                ('truncate', lambda: darr.truncate_raggedarray(obj, 0)), ('meta', lambda: obj.metadata.update({'z': 1})),
+                ('delete', lambda: darr.delete_raggedarray(obj))]
+        for name, f in muts:
+            if name in ('truncate',) and len(obj) < (2 if not isragged else 1):
+                continue
+            before = snapshot(target)
+            try:
+                f()
+                raised = None
+            except Exception as e:
+                raised = type(e).__name__
+            out['attempts'].append(dict(op=name, raised=raised, unchanged=snapshot(target) == before,
+                                        mode=obj.accessmode))
+
+    try:
+        if kind in ('ctx_switch', 'gen_switch'):
+            a = darr.asarray(path, np.arange(int(np.prod(shape)), dtype='int32').reshape(shape), accessmode='r+')
+            if kind == 'ctx_switch':
+                cm = a.open_array(); cm.__enter__(); stack.append(cm)
+            else:
+                g = a.iterchunks(2); next(g); stack.append(g)
+            a.accessmode = 'r'
+            attempts(a, path)
+            if kind == 'ctx_switch':
+                cm.__exit__(None, None, None)
+            else:
+                g.close()
+            a.accessmode = 'r+'
+            try:
+                a[:] = 5; out['rplus_after'] = 'ok'
+            except Exception as e:
+                out['rplus_after'] = type(e).__name__
+        elif kind == 'nested_rw':
+            a = darr.asarray(path, np.arange(int(np.prod(shape)), dtype='int32').reshape(shape), accessmode='r')
+            with a.open_array():
+                try:
+                    with a.open_array(accessmode='r+'):
+                        pass
+                except Exception:
+                    pass
+                attempts(a, path)
+        elif kind in ('ragged_copy', 'array_copy'):
+            if kind == 'ragged_copy':
+                src = darr.asraggedarray(os.path.join(d, 'src.darr'), [[1.0, 2.0], [3.0]], accessmode='r+') if case['nonempty'] \
+                    else darr.create_raggedarray(os.path.join(d, 'src.darr'), atom=(), dtype='float64', accessmode='r+')
+            else:
+                src = darr.asarray(os.path.join(d, 'src.darr'), np.arange(4.0) if case['nonempty'] else np.zeros((0,)),
+                                   accessmode='r+')
+            cp = src.copy(path) if case['default'] else src.copy(path, accessmode='r')
+            out['copy_mode'] = cp.accessmode
+            attempts(cp, path, isragged=(kind == 'ragged_copy'))
+            cp.accessmode = 'r+'
+            try:
+                cp.append([7.0]); out['rplus_after'] = 'ok'
+            except Exception as e:
+                out['rplus_after'] = type(e).__name__
+    except Exception as e:
+        out['error'] = f'{type(e).__name__}: {e}'[:300]
+    return out
